@@ -20,6 +20,14 @@ type Byz struct {
 	HRRGroup  CurveID // send a HelloRetryRequest selecting this group (0: only when needed)
 	HRRCookie []byte  // cookie to put into the HelloRetryRequest
 	HRRAlways bool    // send the HRR even if a usable share is present
+	// AfterHRR: the HelloRetryRequest itself is honest (echoed session id, null compression);
+	// WrongSessionID / CompressionMethod then apply to the ServerHello that follows it only.
+	AfterHRR bool
+	// SelectedIdentity >= 0: when a PSK was really accepted, announce this selected_identity instead
+	// of the accepted one (the key schedule keeps following the accepted PSK). -1 / unset(0 with
+	// SelectedIdentitySet false): normal.
+	SelectedIdentity    uint16
+	SelectedIdentitySet bool
 
 	// CompressedCertificate (RFC 8879): send the Certificate message compressed
 	CertCompAlg     uint16 // 0: uncompressed
